@@ -30,6 +30,8 @@ type vC02Case struct {
 	First *vReqSpec `json:"first"`
 	Win   []vWinOp  `json:"win"`
 	Post  []vWinOp  `json:"post"`
+	// K == "big" (c02big_test.go): Xh[i] = generated header fields added to Reqs[i] (large header blocks)
+	Xh [][]vHdrGen `json:"xh"`
 }
 
 type vC02Res struct {
@@ -59,6 +61,9 @@ type vC02Res struct {
 	OOut  string `json:"oout,omitempty"`  // resp | abort: what the masquerade handler alone does with this request
 	OSent bool   `json:"osent,omitempty"` // ... it aborts after having flushed OSt / OHdr / OBody
 	Fault string `json:"fault,omitempty"` // the callback that failed while this request was served (from the boundary log)
+	// K == "big" (c02big_test.go)
+	Fsz int `json:"fsz,omitempty"` // size of the request's field section (RFC 9114 4.2.2)
+	Hn  int `json:"hn,omitempty"`  // number of header fields (pseudo-header fields included)
 }
 
 type vC02Out struct {
@@ -252,6 +257,8 @@ func TestVerifC02(t *testing.T) {
 				o = vRunC02Gate(cs)
 			} else if cs.K == "abort" {
 				o = vRunC02Abort(cs)
+			} else if cs.K == "big" {
+				o = vRunC02Big(cs)
 			} else {
 				o = vRunC02(cs)
 			}
